@@ -1624,6 +1624,50 @@ namespace awkward {
     size_t ncounted = 0;           // tokens already looked at for comment tracking
     int64_t paren_depth = 0;       // inside ( ... ), which may be nested
     bool in_line_comment = false;  // inside \ ... end of line
+
+    // Words inside comments are not words: '( prints with ." )' and
+    // '\ see s" below' do not start a string, and a 'repeat' or ';' in a
+    // comment does not close anything. Comments are dropped here, so that
+    // no later stage has to know about them.
+    auto drop_comments = [&]() {
+      while (ncounted < tokenized.size()) {
+        const std::string& word = tokenized[ncounted];
+        bool drop = false;
+        if (in_line_comment) {
+          if (word == "\n") {
+            in_line_comment = false;
+          }
+          else {
+            drop = true;
+          }
+        }
+        else if (paren_depth > 0) {
+          if (word == "(") {
+            paren_depth++;
+          }
+          else if (word == ")") {
+            paren_depth--;
+          }
+          drop = true;
+        }
+        else if (word == "(") {
+          paren_depth++;
+          drop = true;
+        }
+        else if (word == "\\") {
+          in_line_comment = true;
+          drop = true;
+        }
+        if (drop) {
+          tokenized.erase(tokenized.begin() + (std::ptrdiff_t)ncounted);
+          linecol.erase(linecol.begin() + (std::ptrdiff_t)ncounted);
+        }
+        else {
+          ncounted++;
+        }
+      }
+    };
+
     while (stop < source_.size()) {
       char current = source_[stop];
       // Whitespace separates tokens and is not included in them.
@@ -1663,32 +1707,7 @@ namespace awkward {
       stop++;
       colstop++;
 
-      // Words inside comments are not words: '( prints with ." )' and
-      // '\ see s" below' do not start a string.
-      if (tokenized.size() > ncounted) {
-        for (;  ncounted < tokenized.size();  ncounted++) {
-          const std::string& word = tokenized[ncounted];
-          if (in_line_comment) {
-            if (word == "\n") {
-              in_line_comment = false;
-            }
-          }
-          else if (paren_depth > 0) {
-            if (word == "(") {
-              paren_depth++;
-            }
-            else if (word == ")") {
-              paren_depth--;
-            }
-          }
-          else if (word == "(") {
-            paren_depth++;
-          }
-          else if (word == "\\") {
-            in_line_comment = true;
-          }
-        }
-      }
+      drop_comments();
 
       if (!tokenized.empty()  &&  paren_depth == 0  &&  !in_line_comment  &&
           (tokenized[tokenized.size() - 1] == ".\""
@@ -1745,6 +1764,11 @@ namespace awkward {
     if (full) {
       tokenized.push_back(source_.substr(start, stop - start));
       linecol.push_back(std::pair<int64_t, int64_t>(line, colstart));
+    }
+    drop_comments();
+    if (paren_depth > 0) {
+      throw std::invalid_argument(
+        std::string("'(' is missing its closing ')'") + FILENAME(__LINE__));
     }
   }
 
